@@ -3,8 +3,8 @@ import json, os, random, shutil
 from common import *
 import probe, rtprobe, oracles, p_gen
 
-FOCUS = {"C04": ("access",), "C13": ("access",), "C06": ("get", "set", "bytes", "bitops"), "C08": ("new", "new_as", "access"),
-         "C19": ("access", "get", "set", "new", "bytes", "bitops"), "C20": ("access", "get", "set", "new", "bytes", "bitops")}
+FOCUS = {"C04": ("access", "read_all"), "C13": ("access",), "C06": ("get", "set", "bytes", "bitops"), "C08": ("new", "new_as", "access"),
+         "C19": ("access", "get", "set", "new", "bytes", "bitops"), "C20": ("access", "get", "set", "new", "bytes", "bitops", "read_all")}
 
 
 def has_cfg(c):
